@@ -45,4 +45,79 @@ MUTANTS = {
         checks=["C02"],
         edits=[(P, 'tok = self._advance()\n            expr = self._parse_cast_expression()\n            return c_ast.UnaryOp(tok.value, expr, expr.coord)', 'tok = self._advance()\n            expr = self._parse_binary_expression(9)\n            return c_ast.UnaryOp(tok.value, expr, expr.coord)')],
     ),
+    "C03-ptr-order": dict(
+        what="pointer chain built in the opposite order (int * const * p -> qualifiers on the wrong level)",
+        checks=["C03"],
+        edits=[(P, "        for quals, coord in stars:\n            ptr = c_ast.PtrDecl", "        for quals, coord in reversed(stars):\n            ptr = c_ast.PtrDecl")],
+    ),
+    "C03-dimquals-order": dict(
+        what="'static' recorded after the qualifiers in [static const n]",
+        checks=["C03"],
+        edits=[(P, 'dim_quals = ["static"] + (self._parse_type_qualifier_list() or [])', 'dim_quals = (self._parse_type_qualifier_list() or []) + ["static"]')],
+    ),
+    "C03-quals-lost": dict(
+        what="base-level qualifiers not copied to the TypeDecl",
+        checks=["C03"],
+        edits=[(P, "typ.quals = decl.quals[:]", "typ.quals = []")],
+    ),
+    "C03-storage-prepend": dict(
+        what="storage-class specifiers collected in reverse source order",
+        checks=["C03"],
+        edits=[(P, 'spec, self._advance().value, "storage", append=True', 'spec, self._advance().value, "storage", append=False')],
+    ),
+    "C03-funcspec-prepend": dict(
+        what="function specifiers collected in reverse source order",
+        checks=["C03"],
+        edits=[(P, 'spec, self._advance().value, "function", append=True', 'spec, self._advance().value, "function", append=False')],
+    ),
+    "C03-modifier-head": dict(
+        what="array/function modifier spliced at the head of the chain instead of the tail",
+        checks=["C03"],
+        edits=[(P, "            modifier_tail.type = decl_tail.type\n            decl_tail.type = modifier_head\n            return decl", "            modifier_tail.type = decl\n            return modifier_head")],
+    ),
+    "C03-ellipsis-lost": dict(
+        what="', ...' accepted but not recorded in the parameter list",
+        checks=["C03"],
+        edits=[(P, "            params.params.append(c_ast.EllipsisParam(self._tok_coord(ell_tok)))", "            pass")],
+    ),
+    "C03-bitsize-second": dict(
+        what="bit-field width of the second and later struct declarators dropped",
+        checks=["C03"],
+        edits=[(P, "        while self._accept(\"COMMA\"):\n            decls.append(self._parse_struct_declarator())", "        while self._accept(\"COMMA\"):\n            decls.append(dict(self._parse_struct_declarator(), bitsize=None))")],
+    ),
+    "C03-designator-first-only": dict(
+        what="only the first designator of a designation kept",
+        checks=["C03"],
+        edits=[(P, "        designators = self._parse_designator_list()\n        self._expect(\"EQUALS\")\n        return designators", "        designators = self._parse_designator_list()\n        self._expect(\"EQUALS\")\n        return designators[:1]")],
+    ),
+    "C05-last-case-child": dict(
+        what="switch regrouping: statements after a nested case chain attach to the first case of the chain",
+        checks=["C05"],
+        edits=[(T, "            last_case = new_compound.block_items[-1]", "            last_case = child")],
+    ),
+    "C05-for-slots": dict(
+        what="for (decl; cond; next): cond and next swapped in the declaration-init branch",
+        checks=["C05"],
+        edits=[(P, "                    return c_ast.For(init, cond, next_expr, stmt, self._tok_coord(tok))\n\n                init = self._parse_expression_opt()", "                    return c_ast.For(init, next_expr, cond, stmt, self._tok_coord(tok))\n\n                init = self._parse_expression_opt()")],
+    ),
+    "C05-pragma-first-only": dict(
+        what="pragma-prefixed substatement keeps only the first pragma",
+        checks=["C05"],
+        edits=[(P, "            return c_ast.Compound(block_items=pragmas + [stmt], coord=pragmas[0].coord)", "            return c_ast.Compound(block_items=pragmas[:1] + [stmt], coord=pragmas[0].coord)")],
+    ),
+    "C05-label-no-pragma": dict(
+        what="statement after a label parsed without the pragma wrapping",
+        checks=["C05"],
+        edits=[(P, "                if self._starts_statement():\n                    stmt = self._parse_pragmacomp_or_statement()\n                else:\n                    stmt = c_ast.EmptyStatement(self._tok_coord(name_tok))", "                if self._starts_statement():\n                    stmt = self._parse_statement()\n                else:\n                    stmt = c_ast.EmptyStatement(self._tok_coord(name_tok))")],
+    ),
+    "C05-dowhile-swap": dict(
+        what="do-while: a pragma before the body is dropped",
+        checks=["C05"],
+        edits=[(P, '            case "DO":\n                stmt = self._parse_pragmacomp_or_statement()', '            case "DO":\n                if self._peek_type() == "PPPRAGMA":\n                    self._parse_pppragma_directive_list()\n                stmt = self._parse_pragmacomp_or_statement()')],
+    ),
+    "C05-pragma-strip": dict(
+        what="#pragma text loses trailing blanks",
+        checks=["C05"],
+        edits=[(L, 'toks.append(self._make_token("PPPRAGMASTR", text[start:pos], start))', 'toks.append(self._make_token("PPPRAGMASTR", text[start:pos].rstrip(), start))')],
+    ),
 }
